@@ -298,7 +298,12 @@ pub fn run(ctx: &mut Ctx) {
             ctx.begin(case);
             let mut rng = ctx.rng("c13.arch", i);
             let codec = R::CODECS[(i % 4) as usize];
-            let l = if i % 5 == 0 { spill_logical(&mut rng, codec, if codec == R::C_NONE { 2200 } else { 6000 }) } else { logical_for(ctx, "c13.logical", i) };
+            let l = if i % 24 == 11 {
+                // more than 2^24 bytes of tile data (two contents above 16 MiB) through short writes and short reads
+                ctx.count("archives_above_16_mib");
+                let len = (1 << 24) + rng.usize(1, 90_000);
+                crate::gen::gen_huge_tiles(&mut rng, codec, len)
+            } else if i % 5 == 0 { spill_logical(&mut rng, codec, if codec == R::C_NONE { 2200 } else { 6000 }) } else { logical_for(ctx, "c13.logical", i) };
             let Ok(bytes) = write_sync(l.build()) else {
                 ctx.inconclusive("reference write failed");
                 ctx.end(case);
@@ -314,6 +319,10 @@ pub fn run(ctx: &mut Ctx) {
             }
             if bytes.len() > 400_000 || (ctx.quick() && bytes.len() > 60_000) {
                 scheds.retain(|s| !matches!(s, Sched::Fixed(1) | Sched::Fixed(2) | Sched::Fixed(3)));
+            }
+            if bytes.len() > (16 << 20) {
+                // chunk sizes that make the number of stream operations bearable, plus sizes around 1 MiB
+                scheds = vec![Sched::Fixed(4096), Sched::Fixed(65_536), Sched::Fixed((1 << 20) - 1), Sched::Random(Rng::new(rng.next()), 1 << 20), Sched::Random(Rng::new(rng.next()), 3000)];
             }
             for (k, s) in scheds.into_iter().enumerate() {
                 let desc = s.describe();
